@@ -28,9 +28,26 @@ from wpull.protocol.ftp.request import Request
 PER_URL = (ServerError, ProtocolError, NetworkError, SSLVerificationError)
 
 
+class VirtualClockLoop(asyncio.SelectorEventLoop):
+    """an event loop whose clock jumps to the next timer when nothing is ready: slow links and stalls of tens of seconds cost no wall time"""
+    def __init__(self): super().__init__(); self._vt = 0.0
+    def time(self): return self._vt
+    def _run_once(self):
+        if not self._ready and self._scheduled:
+            when = self._scheduled[0]._when
+            if when > self._vt: self._vt = when
+        super()._run_once()
+
+
+def vrun(coro):
+    loop = VirtualClockLoop(); asyncio.set_event_loop(loop)
+    try: return loop.run_until_complete(coro)
+    finally: loop.close()
+
+
 class Conn:
     """in-memory connection: the server's bytes arrive as a queue of segments"""
-    def __init__(self, address): self.address = address; self._closed = True; self.seg = []; self.on_write = None; self.on_connect = None; self.eof_after = True
+    def __init__(self, address): self.address = address; self._closed = True; self.seg = []; self.on_write = None; self.on_connect = None; self.eof_after = True; self.delay = 0
     def closed(self): return self._closed
     def reset(self): self._closed = True
     def close(self): self._closed = True
@@ -50,7 +67,7 @@ class Conn:
         if self.on_write: self.on_write(data)
     @asyncio.coroutine
     def read(self, amount=-1):
-        yield from asyncio.sleep(0)
+        yield from asyncio.sleep(self.delay)          # a slow or stalling link (virtual seconds)
         if not self.seg: return b''
         s = self.seg.pop(0)
         if amount is not None and 0 <= amount < len(s): self.seg.insert(0, s[amount:]); s = s[:amount]
@@ -80,8 +97,8 @@ DEVIATIONS = [b'500 no\r\n', b'421 go away\r\n', b'530 not logged in\r\n', b'200
 
 
 class Server:
-    def __init__(self, rnd, deviate_at, deviation, payload, order, data_cut_short, final, listing, cuts_seed):
-        self.rnd = rnd; self.control = Conn(('127.0.0.1', 21)); self.data = Conn(('127.0.0.1', 1025))
+    def __init__(self, rnd, deviate_at, deviation, payload, order, data_cut_short, final, listing, cuts_seed, slow=0):
+        self.rnd = rnd; self.control = Conn(('127.0.0.1', 21)); self.data = Conn(('127.0.0.1', 1025)); self.data.delay = slow
         self.deviate_at = deviate_at; self.deviation = deviation; self.payload = payload; self.order = order; self.data_cut_short = data_cut_short
         self.final = final; self.listing = listing; self.cuts_rnd = random.Random(cuts_seed)
         self.writes = []; self.sent_data = b''; self.final_sent = False
@@ -135,9 +152,9 @@ def one_line(b):
     return b.endswith(b'\r\n') and not any(c in b[:-2] for c in (b'\r', b'\n', b'\0'))
 
 
-def fetch(seed, url, listing, deviate_at, deviation, order, cut_short, final, payload):
+def fetch(seed, url, listing, deviate_at, deviation, order, cut_short, final, payload, slow=0):
     rnd = random.Random(seed)
-    srv = Server(rnd, deviate_at, deviation, payload, order, cut_short, final, listing, seed)
+    srv = Server(rnd, deviate_at, deviation, payload, order, cut_short, final, listing, seed, slow)
     problems = []
     state = {'failed_at_writes': None}
     async def run():
@@ -169,9 +186,9 @@ def fetch(seed, url, listing, deviate_at, deviation, order, cut_short, final, pa
         except Exception as e2: problems.append('recycle() raised %s' % type(e2).__name__)
         return 'ok'
     try:
-        verdict = shim.run(asyncio.wait_for(run(), 5.0))
+        verdict = vrun(asyncio.wait_for(run(), 3600.0))
     except asyncio.TimeoutError:
-        verdict = 'hang'; problems.append('the fetch does not end (5 s) although the server has said everything it has to say and closed the data connection')
+        verdict = 'hang'; problems.append('the fetch does not end (one virtual hour) although the server has said everything it has to say and closed the data connection')
     for w in srv.writes:
         if not one_line(w): problems.append('control connection write %r is not exactly one CR LF terminated line' % w[:80])
     if state['failed_at_writes'] is not None and len(srv.writes) > state['failed_at_writes']:
@@ -215,18 +232,27 @@ def main():
             raw = sample if isinstance(sample, bytes) else sample.encode('utf-8', 'surrogateescape')
             jobs.append((URLS[8], kind, None, b'', 'data-first', False, GOOD['final'], raw))
             jobs.append((URLS[8], kind, None, b'', 'final-first', False, GOOD['final'], raw.replace(b'\n', b'\r\n')))
+    # slow links and stalls: the final 226 is on the control connection long before the data connection has delivered everything (6 / 25 / 90 virtual seconds per
+    # segment): the transfer is complete only when BOTH the reply has been read and the data connection has reached its end
+    slow_jobs = []
+    for delay in (6, 25, 90):
+        for order in ('final-first', 'data-first'):
+            for payload in (bytes(range(256)) * 20, b'z' * 30000):
+                slow_jobs.append((URLS[0], None, None, b'', order, False, GOOD['final'], payload, delay))
+        slow_jobs.append((URLS[8], 'mlsd', None, b'', 'final-first', False, GOOD['final'], listing_payload * 40, delay))
     extra = 300 if a.tier == 'quick' else 20000
     for _ in range(extra):
         jobs.append((rnd.choice(URLS), rnd.choice([None, None, 'mlsd', 'list']), rnd.choice(steps + [None]), rnd.choice(DEVIATIONS), rnd.choice(['data-first', 'final-first']),
                      rnd.random() < 0.2, rnd.choice([GOOD['final'], b'426 x\r\n', b'226-a\r\n226 b\r\n']), rnd.choice(payloads)))
-    for k, (url, listing, step, dev, order, cut_short, final, payload) in enumerate(jobs):
+    for k, job in enumerate(jobs + slow_jobs):
+        url, listing, step, dev, order, cut_short, final, payload = job[:8]; slow = job[8] if len(job) > 8 else 0
         n += 1
-        verdict, problems = fetch(base * 1000003 + k, url, listing, step, dev, order, cut_short, final, payload)
+        verdict, problems = fetch(base * 1000003 + k, url, listing, step, dev, order, cut_short, final, payload, slow)
         verdicts[verdict] = verdicts.get(verdict, 0) + 1
         # a data connection that closed early with a final 2xx reply is indistinguishable from a short file for an FTP client: not a clause of the statement
         for p in problems:
             if len(bad) < 40: bad.append({'url': url, 'fetch': listing or 'file', 'server deviates at': step, 'deviation': repr(dev[:40]), 'order': order, 'data cut short': cut_short,
-                                          'final reply': repr(final[:30]), 'payload bytes': len(payload), 'problem': p})
+                                          'final reply': repr(final[:30]), 'payload bytes': len(payload), 'seconds per data segment': slow, 'problem': p})
     doc = {'label': 'bounded', 'functions': ['wpull/protocol/ftp/client.py:Session.start/download/start_listing/download_listing', 'wpull/protocol/ftp/command.py:Commander', 'wpull/protocol/ftp/stream.py'],
            'cases': n, 'distinct_nontrivial': n, 'bound': '%d scripted fetches: %d steps x %d reply deviations x file / MLSD / LIST; transfer orders x early close x 8 final replies x 3 payloads x %d URLs (CR / LF / NUL in user, password, path); %d seeded' % (n, len(steps), len(DEVIATIONS), len(URLS), extra),
            'rule': 'a case is one fetch against one server script', 'result': 'no violation' if not bad else '%d violations' % len(bad), 'violations': bad, 'verdicts': verdicts,
